@@ -567,8 +567,24 @@ def run_wb(case, seed, R):
     sat = None
     sats = {}
     if safe:
-        sat = SAT if satform == 'scalar' else list(SAT_LIST[helper])
-        sats = dict(zip(names, [SAT] * len(names) if satform == 'scalar' else SAT_LIST[helper]))
+        if satform == 'cross':
+            # distinct per-plane levels; plane 'amax' holds the largest absolute peak, plane 'rmax' the largest peak/saturation
+            a_pl, r_pl = names[case['amax']], names[case['rmax']]
+            spare = iter((400.0, 450.0, 350.0))
+            sats, peaks = {}, {}
+            for nm in names:
+                if nm == r_pl:
+                    sats[nm] = 1000.0 if a_pl == r_pl else 100.0
+                    peaks[nm] = 3.0 * sats[nm]
+                elif nm == a_pl:
+                    sats[nm], peaks[nm] = 1000.0, 1500.0
+                else:
+                    sats[nm] = next(spare)
+                    peaks[nm] = sats[nm] * (1.2 if case['over'] else 0.5)
+            sat = [sats[nm] for nm in names]
+        else:
+            sat = SAT if satform == 'scalar' else list(SAT_LIST[helper])
+            sats = dict(zip(names, [SAT] * len(names) if satform == 'scalar' else SAT_LIST[helper]))
     # planes: non-negative, below 0.9 * saturation unless 'hot'
     base = {}
     for k, nm in enumerate(names):
@@ -576,7 +592,9 @@ def run_wb(case, seed, R):
         a = np.abs(dense(shp, seed, 30 + k, complex_=False)) + 0.05
         s_nm = sats.get(nm, SAT)
         a = a / a.max() * 0.9 * s_nm
-        if hot == nm:
+        if satform == 'cross':
+            a = a / 0.9 / s_nm * peaks[nm]
+        elif hot == nm:
             a = a / 0.9 * 1.5
         elif hot == 'all':
             a = a / 0.9 * EXCESS_ALL[helper][nm]
@@ -671,6 +689,15 @@ def plan(tier, seed):
                     for hot in ('none',) + tuple(names) + ('all',):
                         for satform in ('scalar', 'list'):
                             wb_cases.append({'helper': helper, 'cfa': cfa, 'shape': shape, 'safe': True, 'hot': hot, 'gains': list(gi), 'sat': satform})
+    for helper, names in (('pre', PLANES), ('post', ('r', 'g', 'b'))):
+        for cfa in (('rggb', 'bggr') if helper == 'pre' else ('rggb',)):
+            for shape in ([2, 2], [4, 6]):
+                for gi in itertools.product(range(3), repeat=len(names)):
+                    for am in range(len(names)):
+                        for rm in range(len(names)):
+                            for over in (False, True):
+                                wb_cases.append({'helper': helper, 'cfa': cfa, 'shape': shape, 'safe': True, 'hot': f'cross:{names[am]}>{names[rm]}', 'gains': list(gi),
+                                                 'sat': 'cross', 'amax': am, 'rmax': rm, 'over': over})
     return [
         ScopeUnit('expose', expose_cases, run_expose,
                   'bits EVERY value 1..32 x gain {0.5,1,2,3.7} x bias {0,10,-5} x fwc {1e3,1e12} x frames {1,3} x dcnu,prnu {None, ones, ramp 0.5..1.5} (2-D maps of the image shape) '
@@ -694,6 +721,6 @@ def plan(tier, seed):
                   f'integer raw frames: every even shape in [2..{BB}]^2 x CFA x (dtype, top value) in {{uint8:2^8-1; uint16:2^8-1,2^16-1; uint32 and int64: 2^8-1, 2^16-1, 2^28, 2^32-1}}: decomposite / recomposite / composite exact, '
                   'r and b planes of demosaic_deinterlace and the native colour sites of demosaic_malvar equal the raw integers exactly (compared as Python ints)'),
         ScopeUnit('white_balance', wb_cases, run_wb,
-                  'wb_prescale (both CFAs) and wb_postscale x shapes {(2,2),(4,6)} x ALL gain tuples from {0.5,1,2} x {plain, safe x hot plane in {none, each plane, all} x saturation {scalar, per-plane list}}: '
+                  'wb_prescale (both CFAs) and wb_postscale x shapes {(2,2),(4,6)} x ALL gain tuples from {0.5,1,2} x {plain, safe x hot plane in {none, each plane, all} x saturation {scalar, per-plane list}; plus DISTINCT per-plane saturation levels with every assignment (amax, rmax) of the plane holding the largest absolute peak and the plane with the largest peak/saturation ratio (3x3 post, 4x4 pre), other planes below / 20% above their level}: '
                   'in-place result equals site gains divided by the common ratio max(1, max(plane)/saturation) over every documented plane; no plane ends above gain*saturation'),
     ]
